@@ -154,8 +154,16 @@ def _refine(ctx, f, test, var, iv, pol):
 
 
 def check(ctx, R):
+    id_rules(ctx, R)
+    R.assume("threading.Lock / asyncio.Lock provide mutual exclusion for the `with` body")
+    R.undecided("uniqueness across a complete 2^32 wrap with a stream still open (needs the number of opens, a run-time quantity)")
+
+
+def id_rules(ctx, R):
+    from ..locks import rule_lock_objects
     T = terms(ctx)
     for roles in all_roles(ctx):
+        rule_lock_objects(ctx, R, roles, LockInfo(ctx, roles))
         li = LockInfo(ctx, roles)
         dev = roles.dev_cls
         rule_guarded_by(ctx, R, roles, li, GUARDED_BY_DEV, dev, rule="LOCK-guard")
@@ -253,5 +261,3 @@ def check(ctx, R):
             ok = d is not None and d.kind == "assign" and any(cc is x for x in node_calls(d.node))
             R.check(ok, "ID-open", f.qualname + "|open-arg0", "OPEN.arg0 is the local id of the transaction object created in the critical section",
                     "OPEN.arg0 (`%s`) is not the id captured in the critical section" % (src(a0) if a0 is not None else "?"), f.loc(n.ast))
-    R.assume("threading.Lock / asyncio.Lock provide mutual exclusion for the `with` body")
-    R.undecided("uniqueness across a complete 2^32 wrap with a stream still open (needs the number of opens, a run-time quantity)")
